@@ -114,6 +114,9 @@ func (be *boundEnv) upper(t *Term) (*big.Int, bool) {
 	case "bvadd", "bvmul", "bvsub":
 		l := newLin(w)
 		l.add(t, big.NewInt(1))
+		if _, self := l.coef[t]; self {
+			return nil, false // t is its own atom (e.g. a product of two variables)
+		}
 		if m, ok := be.maxLin(l); ok && m.Cmp(mask(w)) <= 0 {
 			return m, true
 		}
